@@ -81,3 +81,10 @@ add('C10', 'Hypothesis-generated constants, short committed histories, evaluatio
     'dH:C:dH against the 6th-order second difference of W, at states produced by the library update (so the embedded root solve and the hand-written tensor-function JVP rules are '
     'exercised). Stencils straddling the yield switch are discarded; differences that do not agree between two step sizes make the case inconclusive, never a failure.',
     'Finite differences of the library energy are the reference; tolerances 1e-6 (first) and 1e-5 (second derivatives) relative to the stiffness scale; D1 matched by op-by-op re-evaluation.')
+add('C01', 'Hypothesis-generated objective families x start points x solver settings x preconditioner state x entry point; history invariants over the callback sequence and reference-solution oracle (checker-side value/gradient of the raw function, dense Newton minimiser)',
+    'Generated search: seven objective families (convex, indefinite, singular, badly scaled, multi-modal) in dimension 1-12, settings that force each exit path (convergence, iteration cap, '
+    'radius collapse with preconditioner retry), exact / stale / identity preconditioners, both inner products, incremental mode, direct call and load-step driver with a new parameter set. '
+    'Oracles: returned point = last reported iterate, monotone objective along reported iterates (rounding bound from the sum of absolute terms), flag True => recomputed gradient norm '
+    'under the requested parameters < tol, objective.p = requested parameters, and success + unique minimiser on the well-conditioned convex sub-domain with default settings.',
+    'The dense Cholesky stand-in replaces scikit-sparse; exit paths are classified from the solver banners; known finding D9 (uphill trial point returned by the convergence exit) is '
+    'excluded only for the last iterate of a successful solve.')
